@@ -198,8 +198,12 @@ package main
 //@   call NewIdentityWithoutData#1 requires arg0 == f.Value && f.Type == "j"                                        [C17]
 //@   ensures#ran calls("decrypt",1) == old(calls("decrypt",1)) + 1                                                  [C15]
 
+// the word list is strings.Split(<constant>, " ") of 2048 words (recounted from the
+// constant in init on every run) and is never assigned or handed out elsewhere, so
+// the draw n % 2048 stays in range; run-time safety of randomWord is checked, not assumed
+//@ global wordlist initsplit " " count 2048     [C06 C14]
+
 //@ func randomWord() (w)
-//@   nosafety
 //@   maypanic
 //@   call crypto/rand.Read#1 requires len(arg0) == 2                                                                 [C06]
 
